@@ -716,6 +716,25 @@ func (x *Exec) number() {
 	}
 	for i, h := range loopHeadersByIndex(x.fn) {
 		x.loopOrd[h] = i + 1
+		if os.Getenv("GOVC_DEBUG_LOOPS") != "" {
+			line := 0
+			for _, in := range h.Instrs {
+				if in.Pos().IsValid() {
+					line = x.prog.Fset.Position(in.Pos()).Line
+					break
+				}
+			}
+			if line == 0 {
+				for _, s := range h.Succs {
+					for _, in := range s.Instrs {
+						if in.Pos().IsValid() && line == 0 {
+							line = x.prog.Fset.Position(in.Pos()).Line
+						}
+					}
+				}
+			}
+			fmt.Fprintf(os.Stderr, "loop #%d of %s: block %d (%s) near line %d\n", i+1, x.fn.Name(), h.Index, h.Comment, line)
+		}
 	}
 }
 
